@@ -777,21 +777,9 @@ func runCase(c *caseIn) (res result) {
 			f19 = true
 		}
 	}
-	fast, cutResume := false, false
-	for _, f := range c.Faults {
-		if !f.Slow {
-			fast = true
-		}
-		if f.Pos == "resume" {
-			cutResume = true
-		}
-	}
-	if f9 && fast {
-		sigs = append(sigs, "F9:missed-outage")
-	}
-	if f19 && cutResume {
-		sigs = append(sigs, "F19:resume-cut-no-closed-event")
-	}
+	// F9 (missed outage) and F19 (cut resume without closed event) are repaired in /repo: a detached
+	// stream (final code 1) or a silently closed one (3) is a fresh violation, not a known finding
+	_, _ = f9, f19
 	res.sig = strings.Join(sigs, " ")
 	exact := res.direct == ""
 	res.term = fmt.Sprintf("mkCn %s %s %d %s %s %d %d %s %s %s %s %s", coqfmt.List(r.evs), coqfmt.List(connects), r.tokens.Load(),
@@ -927,15 +915,21 @@ func main() {
 			}
 		}
 		nuns += unscripted[i]
-		if strings.Contains(cs.Sig, "F9") {
-			nf9++
-		}
-		if strings.Contains(cs.Sig, "F19") {
-			nf19++
+		if ob, ok := cs.Observed.(map[string]interface{}); ok {
+			if fs, ok := ob["finals"].([][2]int); ok {
+				for _, f := range fs {
+					if f[1] == 1 {
+						nf9++
+					}
+					if f[1] == 3 {
+						nf19++
+					}
+				}
+			}
 		}
 	}
 	rule := "every position {idle, mid open, mid metadata, mid call, open/metadata/call issued during the outage, failed handshake of the redial, link cut at the first resume request, refused resume} x {0 ms, 50 ms redial} x stream shapes {0, 1 up, 1 down, 2+2, 3+1}, plus random scripts of 1-3 failures over 0-4 streams (loud and silent death, 0-2 failed handshakes per redial); ping 10 ms / 40 ms. non-trivial = at least one reconnect, one stream and one resume request; distinct = distinct Coq case terms"
-	extra := map[string]interface{}{"unscripted_keepalive_outages": nuns, "cases_with_F9": nf9, "cases_with_F19": nf19}
+	extra := map[string]interface{}{"unscripted_keepalive_outages": nuns, "streams_left_detached": nf9, "streams_closed_without_event": nf19}
 	if err := w.Flush(*seed, *tier, rule, false, extra); err != nil {
 		fmt.Fprintln(os.Stderr, err)
 		os.Exit(2)
